@@ -331,10 +331,18 @@ def search(ctx, disagreements, proof_info):
 def probes(ctx):
     """Known findings (all open): the witnesses of corpus/C11/*.json replayed on the real code."""
     out = []
+    listed = {k.get("id") for k in ctx.known}
     for e in corpus_entries():
-        if "probe" in e:
-            fails, what = getattr(L, e["probe"]["fn"])(**e["probe"]["args"])
+        pr = e.get("probe") or (e.get("probe_pending") if e["id"] in listed else None)
+        if pr:
+            fails, what = getattr(L, pr["fn"])(**pr["args"])
             out.append((e["id"], fails, what))
+        elif e.get("probe_pending"):
+            # reproduced and reported, not yet listed in known_findings.json: logged, not a verdict
+            pp = e["probe_pending"]
+            fails, what = getattr(L, pp["fn"])(**pp["args"])
+            ctx.cov.notes.append("pending finding %s %s: %s" % (e["id"], "reproduces" if fails else "does not reproduce", what))
+            ctx.log("note: pending finding %s %s" % (e["id"], "reproduces" if fails else "does not reproduce"))
     # sanity of the same oracle on the configuration the theorems cover: the shared interconnects terminate a
     # silent / unmapped request at exactly t (Wishbone ack) resp. t + 2 (AXI B/R handshake)
     for t in (1, 4):
